@@ -749,4 +749,58 @@ def rule_state_in_key(P):
     return R
 
 
-RULES = [rule_recycle_gate, rule_node_items, rule_dead_before_return, rule_identity, rule_schema, rule_key_level_flag, rule_state_in_key]
+def rule_unrolled_equal(P):
+    """ct_tmpl::find compares a stored key with the wanted key through equal_sw, a switch over the key length whose cases fall through, one slot per
+    case, with memcmp for long keys.  The unrolled form means the same as memcmp only if every slot 0..n-1 is compared, slot i with slot i, over the
+    whole width of the slot: all comparisons read the same union member.  Seed C07d compared one slot through the 32-bit member: keys whose 64-bit
+    item (an EV+ edge value) differ by a multiple of 2^32 then hit each other's entries"""
+    R = RuleResult("ct.unrolled-equal", "every equal_sw overload: the slot comparisons pair a[i] with b[i] through one and the same member, for every i from 0 up to the largest unrolled index, each exactly once")
+    seen = set()
+    n = 0
+    for f in sorted(P.fns.values(), key=lambda f: (f["file"], f["line"], f["inst"])):
+        if not f.get("cfg") or not f["q"].endswith("::equal_sw") or (f["file"], f["line"]) in seen:
+            continue
+        seen.add((f["file"], f["line"]))
+        g = Graph(f)
+        R.functions.add(f["inst"])
+        comps = []
+        for k in g.nodes:
+            t = None
+            if k.kind == "branch" and k.cond and k.cond.get("op") in ("!=", "=="):
+                t = k.cond["text"]
+            elif k.kind == "ret" and re.search(r"[!=]=", k.ev.get("text") or "") and "memcmp" not in (k.ev.get("text") or ""):
+                t = k.ev["text"]
+            if not t:
+                continue
+            m = re.fullmatch(r"\(?(\w+)\[(\d+)\](?:\.(\w+))?(!=|==)(\w+)\[(\d+)\](?:\.(\w+))?\)?", re.sub(r"\s+", "", t))
+            if m:
+                comps.append((m.groups(), k.line))
+        if not comps:
+            raise AnalysisBroken("ct.unrolled-equal: %s has no slot comparisons any more" % f["q"])
+        short = "%s%s" % (base_name(f["q"]).replace(M, ""), f["sig"][:28])
+        members = {c[0][2] for c in comps} | {c[0][6] for c in comps}
+        from collections import Counter
+        major = Counter([c[0][2] for c in comps] + [c[0][6] for c in comps]).most_common(1)[0][0]
+        idx = sorted(int(c[0][1]) for c in comps)
+        for (a, i, ma, op, b, j, mb), line in comps:
+            n += 1
+            R.paths += 1
+            iid = "%s: slot %s compared with slot %s through .%s/.%s" % (short, i, j, ma, mb)
+            if i != j or a == b or ma != mb or ma != major:
+                R.fail(iid, where(f, line), Finding(R.rule, f["file"], base_name(f["q"]), "slot:%s" % i,
+                       "slot %s is compared as %s[%s]%s %s %s[%s]%s while the other slots are compared through %s: the unrolled comparison no longer means what memcmp of the whole key means (keys that differ only in the part left out hit each other's entries)" % (i, a, i, "." + ma if ma else "", op, b, j, "." + mb if mb else "", ("." + major) if major else "the plain element"), line))
+            else:
+                R.ok(iid, where(f, line))
+        R.paths += 1
+        iid = "%s: slots 0..%d each compared once" % (short, idx[-1])
+        if idx == list(range(idx[-1] + 1)):
+            R.ok(iid, where(f))
+        else:
+            R.fail(iid, where(f), Finding(R.rule, f["file"], base_name(f["q"]), "slots-complete", "the unrolled cases compare slots %s: a slot is missing or compared twice" % idx, f["line"]))
+    if n < 24:
+        raise AnalysisBroken("ct.unrolled-equal: only %d slot comparisons found in equal_sw, expected 24" % n)
+    R.require_floor(24, "slot comparisons of equal_sw")
+    return R
+
+
+RULES = [rule_recycle_gate, rule_node_items, rule_dead_before_return, rule_identity, rule_schema, rule_key_level_flag, rule_state_in_key, rule_unrolled_equal]
